@@ -199,66 +199,196 @@ type callResult struct {
 }
 
 // analyzeFunc runs the fixpoint for fn in frame fr starting from state st0 (not mutated).
+// selector describes the trace partitioning of one loop by the value a small-valued phi has at
+// the loop header (e.g. the state variable of a reader state machine).
+type selector struct {
+	head *ssa.BasicBlock
+	phi  *ssa.Phi
+	vals []int64 // possible values; partition index = position + 1 (0 = not in the loop)
+	body map[*ssa.BasicBlock]bool
+}
+
+// findSelector: a loop-header integer phi all of whose incoming values come, through phis
+// only, from constants (at most 8 distinct values).
+func findSelector(fn *ssa.Function) *selector {
+	for _, h := range fn.Blocks {
+		var latches []*ssa.BasicBlock
+		for _, p := range h.Preds {
+			if h.Dominates(p) {
+				latches = append(latches, p)
+			}
+		}
+		if len(latches) == 0 {
+			continue
+		}
+		for _, ins := range h.Instrs {
+			phi, ok := ins.(*ssa.Phi)
+			if !ok {
+				break
+			}
+			if _, isInt := intRange(phi.Type()); !isInt {
+				continue
+			}
+			vals := map[int64]bool{}
+			seen := map[*ssa.Phi]bool{}
+			okAll := true
+			nonTrivial := false
+			var walk func(v ssa.Value)
+			walk = func(v ssa.Value) {
+				switch x := v.(type) {
+				case *ssa.Const:
+					if x.Value == nil {
+						okAll = false
+						return
+					}
+					vals[x.Int64()] = true
+				case *ssa.Phi:
+					if seen[x] {
+						return
+					}
+					seen[x] = true
+					if x != phi {
+						nonTrivial = true
+					}
+					for _, e := range x.Edges {
+						walk(e)
+					}
+				default:
+					okAll = false
+				}
+			}
+			walk(phi)
+			if !okAll || len(vals) < 2 || len(vals) > 8 {
+				_ = nonTrivial
+				continue
+			}
+			sel := &selector{head: h, phi: phi, body: loopBlocks(h, latches)}
+			for v := range vals {
+				sel.vals = append(sel.vals, v)
+			}
+			sort.Slice(sel.vals, func(i, j int) bool { return sel.vals[i] < sel.vals[j] })
+			return sel
+		}
+	}
+	return nil
+}
+
+type tagEdge struct {
+	st   *State
+	next int
+}
+
 func (sa *Safe) analyzeFunc(fr *frame, args []AVal, st0 *State) callResult {
+	res, ok := sa.analyzeFuncSel(fr, args, st0, findSelector(fr.fn))
+	if !ok {
+		// partitioning was not applicable after all (the selector was not constant on some edge)
+		res, _ = sa.analyzeFuncSel(fr, args, st0, nil)
+	}
+	return res
+}
+
+func (sa *Safe) analyzeFuncSel(fr *frame, args []AVal, st0 *State, sel *selector) (callResult, bool) {
 	fn := fr.fn
 	sa.Funcs[SSAFuncName(fn)] = true
 	if fn.Blocks == nil {
 		sa.unsup(fn.Pos(), "function %s has no body", fn.String())
-		return callResult{st: st0, none: false}
+		return callResult{st: st0, none: false}, true
 	}
 	if fn.Recover != nil {
 		sa.unsup(fn.Pos(), "function %s uses recover", fn.String())
 	}
+	T := 1
+	if sel != nil {
+		T = len(sel.vals) + 1
+	}
+	tagOf := func(v int64) int {
+		for i, x := range sel.vals {
+			if x == v {
+				return i + 1
+			}
+		}
+		return -1
+	}
+	regsT := make([]map[ssa.Value]AVal, T)
+	regsT[0] = fr.regs
 	for i, p := range fn.Params {
 		if i < len(args) {
 			fr.regs[p] = args[i]
 		}
 	}
+	base := fr.regs
+	defer func() { fr.regs = base }()
 	nb := len(fn.Blocks)
-	in := make([]*State, nb)
-	visits := make([]int, nb)
-	phiVals := make([]map[*ssa.Phi]AVal, nb)
+	in := make([]*State, nb*T)
+	visits := make([]int, nb*T)
+	phiVals := make([]map[*ssa.Phi]AVal, nb*T)
 	in[0] = st0.clone()
 	work := map[int]bool{0: true}
 	var rets []retCase
 	retAt := map[int]retCase{}
 	backEdge := map[[2]int]*State{}
+	tagBack := map[[2]int][]tagEdge{} // (latch block, tag) -> outcomes
 	steps := 0
-	for len(work) > 0 {
-		// pick lowest block index (blocks are roughly in reverse post-order)
-		bi := -1
+	abort := false
+	inBody := func(b *ssa.BasicBlock) bool { return sel != nil && sel.body[b] }
+	for len(work) > 0 && !abort {
+		node := -1
 		for k := range work {
-			if bi < 0 || k < bi {
-				bi = k
+			if node < 0 || k < node {
+				node = k
 			}
 		}
-		delete(work, bi)
+		delete(work, node)
+		bi, tag := node/T, node%T
 		steps++
 		sa.work++
-		if steps > 4000 || sa.work > 3000000 {
+		if steps > 8000 || sa.work > 3000000 {
 			sa.unsup(fn.Pos(), "fixpoint did not converge in %s", fn.String())
 			break
 		}
 		b := fn.Blocks[bi]
-		st := in[bi].clone()
+		st := in[node].clone()
 		if st.dead {
 			continue
 		}
-		for p, v := range phiVals[bi] {
+		if regsT[tag] == nil {
+			regsT[tag] = map[ssa.Value]AVal{}
+			for k, v := range base {
+				regsT[tag][k] = v
+			}
+		}
+		fr.regs = regsT[tag]
+		for p, v := range phiVals[node] {
 			fr.regs[p] = v
 		}
 		propagate := func(to *ssa.BasicBlock, s *State) {
-			if s == nil || s.dead {
+			if s == nil || s.dead || abort {
 				return
 			}
 			ti := to.Index
-			// phi bindings on this edge
 			var pi = -1
 			for k, p := range to.Preds {
 				if p == b {
 					pi = k
 				}
 			}
+			// destination partition
+			ntag := 0
+			if sel != nil {
+				switch {
+				case to == sel.head:
+					v := sa.val(fr, s, sel.phi.Edges[pi])
+					c, isC := constOf(s, v.Lin)
+					if v.Lin == nil || !isC || tagOf(c) < 0 {
+						abort = true
+						return
+					}
+					ntag = tagOf(c)
+				case inBody(to):
+					ntag = tag
+				}
+			}
+			tnode := ti*T + ntag
 			edge := s
 			if to.Dominates(b) {
 				k := [2]int{b.Index, ti}
@@ -268,9 +398,23 @@ func (sa *Safe) analyzeFunc(fr *frame, args []AVal, st0 *State) callResult {
 				} else {
 					backEdge[k] = s.clone()
 				}
+				if sel != nil && to == sel.head {
+					tk := [2]int{b.Index, tag}
+					found := false
+					for i := range tagBack[tk] {
+						if tagBack[tk][i].next == ntag {
+							sa.u.joinSite = fmt.Sprintf("f%d.tbe%d.%d.%d", fr.id, b.Index, tag, ntag)
+							tagBack[tk][i].st = joinStates(tagBack[tk][i].st, s)
+							found = true
+						}
+					}
+					if !found {
+						tagBack[tk] = append(tagBack[tk], tagEdge{s.clone(), ntag})
+					}
+				}
 			}
-			if phiVals[ti] == nil {
-				phiVals[ti] = map[*ssa.Phi]AVal{}
+			if phiVals[tnode] == nil {
+				phiVals[tnode] = map[*ssa.Phi]AVal{}
 			}
 			newPhi := map[*ssa.Phi]AVal{}
 			type phiBind struct {
@@ -298,7 +442,6 @@ func (sa *Safe) analyzeFunc(fr *frame, args []AVal, st0 *State) callResult {
 					phiAtoms[a] = true
 					newPhi[phi] = AVal{Kind: avInt, Lin: linAtom(a), Type: phi.Type()}
 				} else if (inc.Kind == avSlice || inc.Kind == avStr) && inc.Len != nil {
-					// the length of a slice/string phi is an induction variable in its own right
 					a := sa.mAtom(fr, "len(φ"+phi.Name()+":"+phi.Comment+")", Itv{0, posInf})
 					iv := edge.linItv(inc.Len).meet(Itv{0, posInf})
 					binds = append(binds, phiBind{phi, a, AVal{Kind: avInt, Lin: inc.Len}, iv})
@@ -312,7 +455,6 @@ func (sa *Safe) analyzeFunc(fr *frame, args []AVal, st0 *State) callResult {
 			}
 			if len(binds) > 0 {
 				edge = s.clone()
-				// the phi atoms now denote the values of the next visit: rewrite / forget what was known about the old values
 				for _, bd := range binds {
 					var shift *int64
 					if bd.inc.Lin != nil && len(bd.inc.Lin.T) == 1 && bd.inc.Lin.T[bd.a] == 1 {
@@ -337,7 +479,6 @@ func (sa *Safe) analyzeFunc(fr *frame, args []AVal, st0 *State) callResult {
 						}
 					}
 				}
-				// pairwise differences of induction variables whose incoming values differ by a constant
 				if len(binds) <= 6 {
 					for i := 0; i < len(binds); i++ {
 						for j := i + 1; j < len(binds); j++ {
@@ -357,7 +498,7 @@ func (sa *Safe) analyzeFunc(fr *frame, args []AVal, st0 *State) callResult {
 								}
 							}
 							if mi || mj {
-								continue // self-referential increments: the shifted facts carry the relation
+								continue
 							}
 							if c, ok := li.add(lj, -1).isConst(); ok {
 								d := linAtom(binds[i].a).add(linAtom(binds[j].a), -1).addConst(-c)
@@ -368,24 +509,82 @@ func (sa *Safe) analyzeFunc(fr *frame, args []AVal, st0 *State) callResult {
 					}
 				}
 			}
-			if in[ti] == nil {
-				in[ti] = edge.clone()
-				for p, v := range newPhi {
-					phiVals[ti][p] = v
+			// leaving the partitioned loop: make values defined inside it visible to the code after it
+			if tag != 0 && ntag == 0 {
+				if regsT[0] == nil {
+					regsT[0] = base
 				}
-				visits[ti]++
-				work[ti] = true
+				for k, v := range regsT[tag] {
+					ki, isIns := k.(ssa.Instruction)
+					if !isIns || ki.Block() == nil || !sel.body[ki.Block()] {
+						continue
+					}
+					if ov, ok := base[k]; ok && in[tnode] != nil {
+						if !sameVal(ov, v) {
+							sa.u.joinSite = fmt.Sprintf("f%d.exit.%s", fr.id, k.Name())
+							jn := joinStates(in[tnode], edge)
+							jv, ok := joinVals(jn, in[tnode], edge, ov, v)
+							if !ok {
+								fr.at(ki)
+								jv = sa.freshM(fr, edge, k.Type(), k.Name(), nilMaybe)
+							}
+							// carry the joined value's refinements into the edge state
+							for a, iv := range jn.itv {
+								if _, has := edge.itv[a]; !has {
+									if edge == s {
+										edge = s.clone()
+									}
+									edge.itv[a] = iv
+								}
+							}
+							base[k] = jv
+							work[tnode] = true
+						}
+					} else {
+						base[k] = v
+					}
+				}
+			}
+			// entering / staying: values defined outside the loop stay those of the base register file
+			if ntag != 0 {
+				if regsT[ntag] == nil {
+					regsT[ntag] = map[ssa.Value]AVal{}
+				}
+				if tag == 0 {
+					for k, v := range base {
+						ki, isIns := k.(ssa.Instruction)
+						if isIns && ki.Block() != nil && sel.body[ki.Block()] {
+							continue
+						}
+						regsT[ntag][k] = v
+					}
+				} else if tag != ntag {
+					// a back edge into another partition: registers of the loop body travel along
+					for k, v := range regsT[tag] {
+						if _, has := regsT[ntag][k]; !has {
+							regsT[ntag][k] = v
+						}
+					}
+				}
+			}
+			if in[tnode] == nil {
+				in[tnode] = edge.clone()
+				for p, v := range newPhi {
+					phiVals[tnode][p] = v
+				}
+				visits[tnode]++
+				work[tnode] = true
 				return
 			}
-			old := in[ti]
-			sa.u.joinSite = fmt.Sprintf("f%d.b%d", fr.id, ti)
+			old := in[tnode]
+			sa.u.joinSite = fmt.Sprintf("f%d.b%d.%d", fr.id, ti, ntag)
 			j := joinStates(old, edge)
 			for p, v := range newPhi {
-				if ov, ok := phiVals[ti][p]; ok {
+				if ov, ok := phiVals[tnode][p]; ok {
 					if _, isInt := intRange(p.Type()); isInt {
-						phiVals[ti][p] = v
+						phiVals[tnode][p] = v
 					} else {
-						sa.u.joinSite = fmt.Sprintf("f%d.b%d.%s", fr.id, ti, p.Name())
+						sa.u.joinSite = fmt.Sprintf("f%d.b%d.%d.%s", fr.id, ti, ntag, p.Name())
 						jv, ok := joinVals(j, old, edge, ov, v)
 						if !ok {
 							fr.at(p)
@@ -394,19 +593,19 @@ func (sa *Safe) analyzeFunc(fr *frame, args []AVal, st0 *State) callResult {
 						if (v.Kind == avSlice || v.Kind == avStr) && v.Len != nil && ov.Len != nil && v.Len.key() == ov.Len.key() {
 							jv.Len = v.Len
 						}
-						phiVals[ti][p] = jv
+						phiVals[tnode][p] = jv
 					}
 				} else {
-					phiVals[ti][p] = v
+					phiVals[tnode][p] = v
 				}
 			}
-			visits[ti]++
-			if visits[ti] > 4 && isLoopHead(to) {
+			visits[tnode]++
+			if visits[tnode] > 4 && isLoopHead(to) {
 				j = widenState(old, j)
 			}
 			if !equalStates(old, j) {
-				in[ti] = j
-				work[ti] = true
+				in[tnode] = j
+				work[tnode] = true
 			}
 		}
 		done := false
@@ -433,7 +632,10 @@ func (sa *Safe) analyzeFunc(fr *frame, args []AVal, st0 *State) callResult {
 				for _, r := range x.Results {
 					vals = append(vals, sa.val(fr, st, r))
 				}
-				retAt[bi] = retCase{st, vals}
+				if old, ok := retAt[bi]; ok && tag != 0 {
+					_ = old // a return inside a partitioned loop: keep one case per partition
+				}
+				retAt[node] = retCase{st, vals}
 				if sa.LenRule {
 					sa.checkLenCovers(fr, st, x.Pos())
 				}
@@ -452,7 +654,35 @@ func (sa *Safe) analyzeFunc(fr *frame, args []AVal, st0 *State) callResult {
 			}
 		}
 	}
-	sa.checkLoops(fr, in, backEdge)
+	if abort {
+		return callResult{}, false
+	}
+	fr.regs = base
+	// per-block view for the loop rules: join over partitions
+	inB := make([]*State, nb)
+	for n, s := range in {
+		if s == nil {
+			continue
+		}
+		bi := n / T
+		if inB[bi] == nil {
+			inB[bi] = s
+		} else {
+			sa.u.joinSite = fmt.Sprintf("f%d.inB%d", fr.id, bi)
+			inB[bi] = joinStates(inB[bi], s)
+		}
+	}
+	if sel != nil {
+		// registers for the loop rules: the header phis as seen in any partition
+		for t := 1; t < T; t++ {
+			for k, v := range regsT[t] {
+				if _, ok := base[k]; !ok {
+					base[k] = v
+				}
+			}
+		}
+	}
+	sa.checkLoopsSel(fr, inB, backEdge, sel, tagBack, regsT)
 	var idx []int
 	for k := range retAt {
 		idx = append(idx, k)
@@ -461,7 +691,7 @@ func (sa *Safe) analyzeFunc(fr *frame, args []AVal, st0 *State) callResult {
 	for _, k := range idx {
 		rets = append(rets, retAt[k])
 	}
-	return sa.joinReturns(fr, rets)
+	return sa.joinReturns(fr, rets), true
 }
 
 func mustRange(t types.Type) Itv {
